@@ -58,6 +58,7 @@ def doc_class():
         si: Set[int] = None
         ss: Set[str] = None
         se: Set[Color] = None
+        sn: Set[Inner] = None
         di: Dict[int, str] = None
         ds: Dict[str, int] = None
         de: Dict[Color, int] = None
